@@ -151,8 +151,11 @@ def rep_wf(rep):
     return len(rep[1]) >= 1 and all(0 <= x < W for x in rep[1])
 
 # ----------------------------------------------------------------------------
-# known-finding classifiers (same definitions as add_known / pow_known in
-# coq/Num/BigUint.v; the model's own verdict is compared with these)
+# classes of the two defects repaired in fcf264e / 2c2d128 (same definitions as
+# add_known / pow_known in coq/Num/BigUint.v).  Both are listed as fixed, so a
+# failure inside them is reported like any other violation; the classes are
+# only used to show that the corpus still contains inputs that tell the old
+# code from the new (regression sensitivity, see check_regression_witnesses).
 
 def add_known(a, b):
     return a[0] == 's' and vlen(b) > 1 and a[1] + val(b) >= W ** vlen(b)
@@ -340,14 +343,11 @@ def check_biguint(c):
                 cls = CLS_ADD
             elif op == 'bu-pow' and pow_known(a, b) and ni == ('err', 3):
                 cls = CLS_POW
-            if cls and c.known_finding(cls):
-                # the mirror is bug-compatible: it must predict the same wrong answer
-                if io.split(' "')[0] != mo.split(' "')[0] and ni[:2] != nm[:2]:
-                    c.violation('known-class-model-drift', {'kind': 'impl-vs-model', 'class': cls, 'line': li, 'impl': io, 'model': mo}, no_input=True)
+            if cls and c.known_finding(cls):     # only if someone re-opens the finding
                 continue
             c.violation('biguint-' + op[3:], {'kind': 'impl-vs-spec', 'layer': 'L1 biguint', 'op': op, 'family': fam,
                                               'a': wire(a), 'b': wire(b) if b is not None else None, 'line': li,
-                                              'impl': io, 'spec': repr(spec), 'model': mo})
+                                              'impl': io, 'spec': repr(spec), 'model': mo, 'repaired_class': cls})
             continue
         # ---- impl vs model ------------------------------------------------
         if ni[0] != nm[0]:
@@ -363,14 +363,22 @@ def check_biguint(c):
             c.violation('biguint-panic-site-drift', {'kind': 'impl-vs-model', 'layer': 'L1 biguint', 'line': li, 'impl': io, 'model': mo}, no_input=True)
         if first_sample and big and op == 'bu-divmod':
             c.sample({'op': op, 'line': li[:300], 'impl': io[:300]}); first_sample = False
-    # the classifiers: python definition vs the Coq definition (extracted)
-    cl = [(op, a, b) for op, a, b, fam in cases if op in ('bu-add', 'bu-pow') and not fam.startswith('malformed')]
-    kl = [line_of(op + '-known', a, b) for op, a, b in cl]
-    ko = c.model('num', kl, cross=False)
-    for (op, a, b), o in zip(cl, ko):
-        want = add_known(a, b) if op == 'bu-add' else pow_known(a, b)
-        if o != ('1' if want else '0'):
-            c.violation('classifier-mismatch', {'kind': 'check-internal', 'op': op, 'a': wire(a), 'b': wire(b), 'coq': o, 'python': want}, no_input=True)
+    # regression sensitivity: the model of the code BEFORE the two repairs
+    # (add_old / pow_old, kept in coq/Num/BigUint.v) must disagree with the spec
+    # on corpus members, i.e. this run would have flagged the old code
+    wit = [(op, a, b) for op, a, b, fam in cases if not fam.startswith('malformed') and
+           ((op == 'bu-add' and add_known(a, b)) or (op == 'bu-pow' and pow_known(a, b)))]
+    ol = [line_of(op + '-old', a, b) for op, a, b in wit]
+    oo = c.model('num', ol, cross=False)
+    caught = {'bu-add': 0, 'bu-pow': 0}
+    for (op, a, b), o in zip(wit, oo):
+        nm = norm_model(o); spec = bu_spec(op, a, b)
+        good = (spec[0] == 'ok' and nm[0] == 'ok' and bu_value_of(op, nm[1]) == spec[1]) or (spec[0] == 'err' and nm == ('err', spec[1]))
+        if not good:
+            caught[op] += 1
+    c.extra['regression_witnesses'] = {'add_old_wrong_on': caught['bu-add'], 'pow_old_wrong_on': caught['bu-pow'], 'candidates': len(wit)}
+    if caught['bu-add'] == 0 or caught['bu-pow'] == 0:
+        c.violation('corpus-lost-regression-witnesses', {'kind': 'check-internal', 'detail': c.extra['regression_witnesses']}, no_input=True)
     if c.tier == 'thorough':
         # release profile (no overflow checks): the u64 subtraction in sub wraps
         rl = []
@@ -388,6 +396,622 @@ def check_biguint(c):
                 c.violation('biguint-sub', {'kind': 'impl-vs-spec', 'layer': 'L1 biguint release profile', 'line': li, 'impl': io})
 
 
+# ----------------------------------------------------------------------------
+# L1 BigRat
+
+def rat_val(x):
+    neg, n, d = x
+    v = Fraction(val(n), val(d))
+    return -v if neg else v
+
+def rat_wire(x):
+    return ['r', 1 if x[0] else 0, wire(x[1]), wire(x[2])]
+
+def rat_key(x):
+    return ('-' if x[0] else '+') + rep_key(x[1]) + '/' + rep_key(x[2])
+
+def unwire_rat(p):
+    if isinstance(p, list) and len(p) == 4 and p[0] == b'r' and p[1] in (0, 1):
+        n, d = unwire(p[2]), unwire(p[3])
+        if rep_wf(n) and rep_wf(d) and val(d) != 0:
+            return (p[1] == 1, n, d)
+    return None
+
+def rat_of(r, q, neg_zero=True):
+    """a representation of the rational q (not necessarily reduced)"""
+    k = r.choice([1, 1, 1, 2, 3, 6, 10, W - 1, W, rand_limb(r) or 1])
+    n = abs(q.numerator) * k; d = q.denominator * k
+    neg = q < 0 or (q == 0 and neg_zero and r.random() < 0.3)
+    return (neg, rep_of(r, n), rep_of(r, d))
+
+def rand_rat(r, nlen=4, dlen=2):
+    k = r.random()
+    n = val(rand_bu(r, nlen))
+    if k < 0.25:
+        d = 1
+    elif k < 0.5:
+        d = r.choice([2, 3, 4, 5, 6, 10, 100, 1 << 32, W - 1, W, W + 1, 10 ** 19, 10 ** 20])
+    else:
+        d = val(rand_bu(r, dlen)) or 1
+    return (r.random() < 0.4, rep_of(r, n), rep_of(r, d))
+
+def gen_br_cases(c):
+    r = c.rng
+    quick = c.tier == 'quick'
+    N = 1 if quick else 10
+    cases = []
+
+    def pairs():
+        x = rand_rat(r); y = rand_rat(r)
+        yield x, y, 'random'
+        # same denominator value, different representations
+        d = val(y[2])
+        yield (x[0], x[1], rep_of(r, d)), (y[0], y[1], rep_of(r, d)), 'same-den'
+        # denominators sharing a factor / coprime
+        g = r.choice([2, 6, 10, W - 1, W, rand_limb(r) or 1])
+        d1 = r.choice([1, 3, 7, rand_limb(r) or 1]); d2 = r.choice([1, 5, 9, rand_limb(r) or 1])
+        yield (x[0], x[1], rep_of(r, g * d1)), (y[0], y[1], rep_of(r, g * d2)), 'shared-factor'
+        # cancelling and near-equal
+        q = rat_val(x)
+        yield rat_of(r, q), rat_of(r, -q), 'cancelling'
+        yield rat_of(r, q), rat_of(r, q), 'equal-values'
+        yield rat_of(r, q), rat_of(r, q + Fraction(1, r.choice([1, 7, W, W * W + 1]))), 'near-equal'
+        # integers around limb boundaries, all sign combinations
+        k = r.choice([1, 2, 3]); c0 = r.choice([0, 1, 5, W - 1])
+        a = Fraction(W ** k + c0); b = Fraction(W ** k)
+        for sa in (1, -1):
+            for sb in (1, -1):
+                yield rat_of(r, sa * a), rat_of(r, sb * b), 'limb-boundary-signs'
+        yield rat_of(r, Fraction(0)), y, 'zero-left'
+        yield x, rat_of(r, Fraction(0)), 'zero-right'
+
+    for _ in range(25 * N):
+        for x, y, fam in pairs():
+            for op in ('br-add', 'br-mul', 'br-div', 'br-cmp'):
+                cases.append((op, x, y, fam))
+            cases.append(('br-neg', x, None, fam))
+            cases.append(('br-simplify', x, None, fam))
+    # the repaired addition defect at the BigRat level
+    cases.append(('br-add', (False, ('s', W - 1), ('s', 1)), (False, ('l', [1, W - 1]), ('s', 1)), 'corpus'))
+    cases.append(('br-add', (True, ('s', W - 1), ('l', [1])), (True, ('l', [1, W - 1, W - 1]), ('s', 1)), 'corpus'))
+    # pow with integer exponents (written reduced or not), all signs
+    for _ in range(40 * N):
+        base = rand_rat(r, 2, 1) if r.random() < 0.7 else rat_of(r, Fraction(r.choice([0, 1, -1, 2, -2, 10]), r.choice([1, 1, 3])))
+        z = r.choice([0, 1, 2, 3, 4, 5, 7, 8, 16, 17, -1, -2, -3, -8])
+        cases.append(('br-pow', base, rat_of(r, Fraction(z)), 'pow-int'))
+        cases.append(('br-pow', rat_of(r, Fraction(0)), rat_of(r, Fraction(r.choice([0, 0, 1, -1, 5]))), 'pow-zero-base'))
+        cases.append(('br-pow', base, (r.random() < 0.5, rep_of(r, W ** r.randint(1, 2) + r.choice([0, 3])), rep_of(r, 1)), 'pow-exp-too-large'))
+        cases.append(('br-pow', base, (r.random() < 0.5, ('l', [abs(z), 0]), rep_of(r, 1)), 'pow-leading-zero-exp'))
+        cases.append(('br-pow', base, rat_of(r, Fraction(r.choice([1, 3, 5, -1, 7]), 2)), 'pow-non-integer'))
+    # malformed: zero denominators (outside wfr) -- model must still predict the code
+    z0 = (False, ('s', 3), ('s', 0)); z1 = (True, ('l', [1, 1]), ('l', [0, 0]))
+    for op in ('br-add', 'br-mul', 'br-div', 'br-cmp'):
+        cases.append((op, z0, (False, ('s', 1), ('s', 2)), 'malformed-zero-den'))
+        cases.append((op, (True, ('s', 1), ('s', 2)), z1, 'malformed-zero-den'))
+    cases.append(('br-simplify', z0, None, 'malformed-zero-den'))
+    cases.append(('br-simplify', z1, None, 'malformed-zero-den'))
+    return cases
+
+def br_line(op, x, y):
+    if y is None:
+        return sx([Sym(op), 1, rat_wire(x)])
+    return sx([Sym(op), 1, rat_wire(x), rat_wire(y)])
+
+def br_spec(op, x, y):
+    qx = rat_val(x); qy = rat_val(y) if y is not None else None
+    if op == 'br-add':
+        return ('ok', qx + qy)
+    if op == 'br-mul':
+        return ('ok', qx * qy)
+    if op == 'br-div':
+        return ('err', 1) if qy == 0 else ('ok', qx / qy)
+    if op == 'br-neg':
+        return ('ok', -qx)
+    if op == 'br-simplify':
+        return ('ok', qx)
+    if op == 'br-cmp':
+        return ('ok', 0 if qx < qy else (1 if qx == qy else 2))
+    if op == 'br-pow':
+        if qy.denominator != 1:
+            return ('out-of-fragment',)
+        z = qy.numerator
+        if abs(z) >= W:
+            return ('err', 3)
+        if qx == 0 and z == 0:
+            return ('err', 2)
+        if qx == 0 and z < 0:
+            return ('err', 1)
+        return ('ok', qx ** z)
+    raise ValueError(op)
+
+def br_value_of(op, payload):
+    if op == 'br-cmp':
+        return payload if isinstance(payload, int) else None
+    if op == 'br-pow':
+        if not (isinstance(payload, list) and len(payload) == 2):
+            return None
+        x = unwire_rat(payload[1])
+        return None if x is None else (rat_val(x), payload[0])
+    x = unwire_rat(payload)
+    if x is None:
+        return None
+    if op == 'br-simplify' and math.gcd(val(x[1]), val(x[2])) != 1:
+        return None
+    return rat_val(x)
+
+def check_bigrat(c):
+    cases = gen_br_cases(c)
+    lines = [br_line(op, x, y) for op, x, y, _ in cases]
+    impl = c.impl('num', lines)
+    model = c.model('num', lines)
+    sampled = False
+    for (op, x, y, fam), li, io, mo in zip(cases, lines, impl, model):
+        big = any(vlen(t) > 1 for t in ([x[1], x[2]] + ([y[1], y[2]] if y is not None else [])))
+        c.note_case(op + '|' + rat_key(x) + '|' + (rat_key(y) if y is not None else ''), big, op + '/' + fam)
+        ni = norm_impl(op, io); nm = norm_model(mo)
+        if fam.startswith('malformed'):
+            if ni[0] != nm[0] or (ni[0] == 'ok' and ni[1] != nm[1]) or (ni[0] == 'err' and ni[1] != nm[1]):
+                c.violation('bigrat-malformed-drift', {'kind': 'impl-vs-model', 'layer': 'L1 bigrat', 'line': li, 'impl': io, 'model': mo}, no_input=True)
+            continue
+        spec = br_spec(op, x, y)
+        if spec[0] == 'out-of-fragment':
+            # non-integer exponent: root_n is outside this property; the model must say so
+            if nm != ('err', 7):
+                c.violation('bigrat-pow-fragment', {'kind': 'model-self-check', 'line': li, 'model': mo}, no_input=True)
+            continue
+        if spec[0] == 'ok':
+            want = (spec[1], 1) if op == 'br-pow' else spec[1]
+            ok = ni[0] == 'ok' and br_value_of(op, ni[1]) == want
+        else:
+            ok = ni[0] == 'err' and ni[1] == spec[1]
+        if not ok:
+            c.violation('bigrat-' + op[3:], {'kind': 'impl-vs-spec', 'layer': 'L1 bigrat', 'op': op, 'family': fam, 'line': li,
+                                             'impl': io, 'spec': repr(spec), 'model': mo})
+            continue
+        if ni[0] != nm[0]:
+            c.violation('bigrat-kind-drift', {'kind': 'impl-vs-model', 'layer': 'L1 bigrat', 'line': li, 'impl': io, 'model': mo}, no_input=True)
+        elif ni[0] == 'ok' and ni[1] != nm[1]:
+            if br_value_of(op, nm[1]) == br_value_of(op, ni[1]):
+                c.repr_drift += 1
+            else:
+                c.violation('bigrat-model-wrong', {'kind': 'impl-vs-model', 'layer': 'L1 bigrat', 'line': li, 'impl': io, 'model': mo}, no_input=True)
+        elif ni[0] == 'err' and ni[1] != nm[1]:
+            c.violation('bigrat-error-kind-drift', {'kind': 'impl-vs-model', 'layer': 'L1 bigrat', 'line': li, 'impl': io, 'model': mo}, no_input=True)
+        if not sampled and big and op == 'br-add' and fam == 'shared-factor':
+            c.sample({'op': op, 'line': li[:300], 'impl': io[:300]}); sampled = True
+
+
+# ----------------------------------------------------------------------------
+# L2: expression trees through fend_core::evaluate
+
+CLS_POW_UNREDUCED = 'complex-pow-unreduced-integer-exponent'
+
+class Outside(Exception):
+    pass
+
+class Undefined(Exception):
+    def __init__(self, kind):
+        self.kind = kind
+
+def lit_value(text):
+    """the rational a literal denotes (integers, terminating decimals, a.b(c) recurring decimals)"""
+    if '(' in text:
+        head, rec = text[:-1].split('(')
+        ip, fp = head.split('.')
+        base = Fraction(int(ip + fp or '0'), 10 ** len(fp)) if (ip + fp) else Fraction(0)
+        return base + Fraction(int(rec), (10 ** len(rec) - 1) * 10 ** len(fp))
+    return Fraction(text)
+
+def spec_eval(t):
+    """complex rational value (re, im) of a tree; raises Undefined / Outside"""
+    k = t[0]
+    if k == 'lit':
+        return (lit_value(t[1]), Fraction(0))
+    if k == 'i':
+        return (Fraction(0), Fraction(1))
+    if k in ('neg', 'real', 'imag', 'conj'):
+        a, b = spec_eval(t[1])
+        return {'neg': (-a, -b), 'real': (a, Fraction(0)), 'imag': (b, Fraction(0)), 'conj': (a, -b)}[k]
+    (a, b), (c, d) = spec_eval(t[1]), spec_eval(t[2])
+    if k == 'add':
+        return (a + c, b + d)
+    if k == 'sub':
+        return (a - c, b - d)
+    if k == 'mul':
+        return (a * c - b * d, b * c + a * d)
+    if k == 'div':
+        if c == 0 and d == 0:
+            raise Undefined('div0')
+        m = c * c + d * d
+        return ((a * c + b * d) / m, (b * c - a * d) / m)
+    if k == 'pow':
+        if b != 0 or d != 0 or c.denominator != 1:
+            raise Outside()
+        z = c.numerator
+        if a == 0 and z == 0:
+            raise Undefined('0^0')
+        if a == 0 and z < 0:
+            raise Undefined('div0')
+        if abs(z) >= W:
+            # beyond machine range: an error is admissible, not mandatory (1^x and x^1 are short-cut)
+            if a == 1:
+                return (Fraction(1), Fraction(0))
+            raise Undefined('huge')
+        if abs(z) > 4096:
+            raise Outside()              # never generated: too large to compute here
+        return (a ** z, Fraction(0))
+    raise ValueError(k)
+
+def text_of(t):
+    k = t[0]
+    if k == 'lit':
+        return t[1]
+    if k == 'i':
+        return 'i'
+    if k == 'neg':
+        return '(-' + text_of(t[1]) + ')'
+    if k in ('real', 'imag'):
+        return k + '(' + text_of(t[1]) + ')'
+    if k == 'conj':
+        return 'conjugate(' + text_of(t[1]) + ')'
+    op = {'add': '+', 'sub': '-', 'mul': '*', 'div': '/', 'pow': '^'}[k]
+    return '(' + text_of(t[1]) + ' ' + op + ' ' + text_of(t[2]) + ')'
+
+def count_ops(t):
+    return 0 if t[0] in ('lit', 'i') else 1 + sum(count_ops(x) for x in t[1:])
+
+def lits_of(t, acc):
+    if t[0] == 'lit':
+        acc.add(t[1])
+    elif t[0] != 'i':
+        for x in t[1:]:
+            lits_of(x, acc)
+
+def wire_tree(t, reps):
+    k = t[0]
+    if k == 'lit':
+        return ['lit', rat_wire(reps[t[1]])]
+    if k == 'i':
+        return ['i']
+    return [k] + [wire_tree(x, reps) for x in t[1:]]
+
+NUM_BITS = 9000
+DEN_BITS = 160
+
+def size_ok(v):
+    return all(abs(q.numerator).bit_length() <= NUM_BITS and q.denominator.bit_length() <= DEN_BITS for q in v)
+
+def gen_int_lit(r, big_ok=True):
+    k = r.random()
+    if k < 0.45:
+        return str(r.choice([0, 1, 2, 3, 4, 5, 6, 7, 8, 9, 10, 12, 60, 100, 255, 1000]))
+    if k < 0.75 or not big_ok:
+        e = 64 * r.choice([1, 1, 1, 2, 2, 3, 4])
+        return str((1 << e) + r.choice([-1, 0, 1, 5]))
+    if k < 0.85:
+        return str(r.getrandbits(r.choice([63, 64, 65, 127, 128, 129, 200])) or 1)
+    if k < 0.93:
+        return str(rand_limb(r))
+    return str(r.getrandbits(r.choice([1024, 2048, 4096])) | 1)
+
+def gen_lit(r):
+    k = r.random()
+    if k < 0.8:
+        return ('lit', gen_int_lit(r))
+    if k < 0.93:
+        return ('lit', r.choice(['0.5', '0.25', '1.5', '2.75', '0.1', '12.125', '0.001', '3.0', '18446744073709551616.5']))
+    return ('lit', r.choice(['0.(3)', '0.(6)', '0.1(6)', '1.(142857)', '0.(09)']))
+
+def gen_exponent(r):
+    """an integer-valued exponent: literal, negative, cancelling history, unreduced quotient"""
+    k = r.random()
+    z = r.choice([0, 1, 2, 2, 3, 3, 4, 5, 7, 8, 11])
+    if k < 0.35:
+        return ('lit', str(z))
+    if k < 0.5:
+        return ('neg', ('lit', str(z)))
+    if k < 0.65:
+        big = 1 << (64 * r.choice([1, 2]))
+        return ('sub', ('add', ('lit', str(big)), ('lit', str(z))), ('lit', str(big)))
+    if k < 0.8:
+        m = r.choice([2, 3, 4])
+        return ('div', ('lit', str(z * m)), ('lit', str(m)))
+    if k < 0.9:
+        return ('sub', ('lit', str(z)), ('lit', str(r.choice([0, 1, z, z + 2]))))
+    return ('mul', ('lit', str(r.choice([0, 1, 2]))), ('lit', str(r.choice([1, 2, 3]))))
+
+def gen_tree(r, depth, cx):
+    """random tree with a defined, size-bounded value; returns (tree, value) or None"""
+    if depth == 0 or r.random() < 0.12:
+        if cx and r.random() < 0.25:
+            t = ('i',)
+        else:
+            t = gen_lit(r)
+        return t, spec_eval(t)
+    k = r.random()
+    try:
+        if k < 0.1:
+            sub = gen_tree(r, depth - 1, cx)
+            if sub is None:
+                return None
+            t = ('neg', sub[0])
+        elif k < 0.16 and cx:
+            sub = gen_tree(r, depth - 1, cx)
+            if sub is None:
+                return None
+            t = (r.choice(['real', 'imag', 'conj']), sub[0])
+        elif k < 0.28:
+            base = gen_tree(r, depth - 1, False)
+            if base is None:
+                return None
+            if max(abs(base[1][0].numerator).bit_length(), base[1][0].denominator.bit_length()) > 700:
+                return None
+            t = ('pow', base[0], gen_exponent(r))
+        elif k < 0.36:
+            # cancelling history (X + c) - X
+            x = gen_tree(r, depth - 1, cx)
+            if x is None:
+                return None
+            cst = ('lit', gen_int_lit(r, False))
+            t = r.choice([('sub', ('add', x[0], cst), x[0]), ('sub', x[0], ('sub', x[0], cst)), ('div', ('mul', x[0], cst), x[0])])
+        else:
+            a = gen_tree(r, depth - 1, cx); b = gen_tree(r, depth - 1, cx)
+            if a is None or b is None:
+                return None
+            t = (r.choice(['add', 'add', 'sub', 'sub', 'mul', 'mul', 'div', 'div']), a[0], b[0])
+        v = spec_eval(t)
+    except (Undefined, Outside):
+        return None
+    if not size_ok(v):
+        return None
+    return t, v
+
+def all_sizes_ok(t):
+    """every intermediate value defined and size-bounded (keeps gcds on the model side cheap)"""
+    try:
+        v = spec_eval(t)
+    except (Undefined, Outside):
+        return False
+    if not size_ok(v):
+        return False
+    return all(all_sizes_ok(x) for x in t[1:]) if t[0] not in ('lit', 'i') else True
+
+ERROR_TREES = [
+    (('div', ('lit', '1'), ('lit', '0')), 'div0'),
+    (('div', ('lit', '5'), ('sub', ('lit', '18446744073709551616'), ('lit', '18446744073709551616'))), 'div0'),
+    (('div', ('add', ('lit', '1'), ('i',)), ('sub', ('i',), ('i',))), 'div0'),
+    (('pow', ('lit', '0'), ('lit', '0')), '0^0'),
+    (('pow', ('sub', ('lit', '3'), ('lit', '3')), ('sub', ('lit', '7'), ('lit', '7'))), '0^0'),
+    (('pow', ('lit', '0'), ('neg', ('lit', '2'))), 'div0'),
+    (('pow', ('lit', '2'), ('lit', '18446744073709551616')), 'huge'),
+    (('pow', ('lit', '3'), ('neg', ('lit', '36893488147419103232'))), 'huge'),
+    (('add', ('lit', '1'), ('div', ('lit', '1'), ('mul', ('lit', '0'), ('lit', '5')))), 'div0'),
+]
+
+CORPUS_TREES = [
+    ('add', ('lit', '18446744073709551615'), ('lit', '340282366920938463444927863358058659841')),     # fcf264e
+    ('pow', ('lit', '2'), ('sub', ('add', ('lit', '18446744073709551616'), ('lit', '5')), ('lit', '18446744073709551616'))),   # 2c2d128
+    ('pow', ('neg', ('lit', '8')), ('div', ('lit', '6'), ('lit', '2'))),       # unreduced integer exponent, negative base
+    ('pow', ('neg', ('lit', '2')), ('div', ('lit', '4'), ('lit', '2'))),
+    ('pow', ('lit', '2'), ('div', ('lit', '4'), ('lit', '2'))),
+    ('pow', ('neg', ('lit', '2')), ('lit', '2')),
+    ('pow', ('neg', ('lit', '2')), ('neg', ('lit', '3'))),
+    ('pow', ('div', ('lit', '2'), ('lit', '3')), ('neg', ('lit', '2'))),
+    ('pow', ('lit', '1'), ('lit', '18446744073709551616')),
+    ('pow', ('lit', '18446744073709551617'), ('lit', '1')),
+    ('pow', ('lit', '7'), ('lit', '0')),
+    ('div', ('add', ('lit', '1'), ('i',)), ('sub', ('lit', '3'), ('mul', ('lit', '2'), ('i',)))),
+    ('mul', ('add', ('lit', '18446744073709551615'), ('i',)), ('conj', ('add', ('lit', '18446744073709551615'), ('i',)))),
+    ('sub', ('div', ('lit', '1'), ('lit', '3')), ('div', ('lit', '1'), ('lit', '3'))),
+    ('add', ('div', ('lit', '1'), ('lit', '6')), ('div', ('lit', '1'), ('lit', '10'))),
+    ('sub', ('lit', '0.1(6)'), ('div', ('lit', '1'), ('lit', '6'))),
+    ('mul', ('lit', '0'), ('div', ('lit', '5'), ('lit', '7'))),
+    ('imag', ('div', ('i',), ('add', ('lit', '0.5'), ('i',)))),
+    ('neg', ('sub', ('lit', '5'), ('lit', '5'))),
+]
+
+def dbg_bu(rep):
+    return str(rep[1]) if rep[0] == 's' else '[' + ', '.join(str(x) for x in reversed(rep[1])) + ']'
+
+def dbg_rat(x):
+    return ('-' if x[0] else '') + dbg_bu(x[1]) + ('' if x[2] == ('s', 1) else '/' + dbg_bu(x[2]))
+
+def dbg_value(flag, rre, rim):
+    s = '' if flag else 'approx. '
+    s += dbg_rat(rre)
+    if rim[1] != ('s', 0):
+        s += ' + ' + dbg_rat(rim) + 'i'
+    return s
+
+def parse_dbg_bu(t):
+    t = t.strip()
+    if t.startswith('['):
+        return ('l', [int(x) for x in reversed(t[1:-1].split(','))])
+    return ('s', int(t))
+
+def parse_dbg_real(text):
+    """'@debug <real literal>' output -> raw rat, or None"""
+    if ' (unitless)' not in text:
+        return None
+    body = text.split(' (unitless)')[0]
+    if body.startswith('approx.') or ' + ' in body:
+        return None
+    neg = body.startswith('-')
+    if neg:
+        body = body[1:]
+    try:
+        if '/' in body and not body.startswith('['):
+            n, d = body.split('/', 1)
+        elif body.startswith('[') and ']/' in body:
+            n, d = body.split(']/', 1); n += ']'
+        else:
+            n, d = body, '1'
+        return (neg, parse_dbg_bu(n), parse_dbg_bu(d))
+    except Exception:
+        return None
+
+def terminates(q):
+    d = q.denominator
+    for p in (2, 5):
+        while d % p == 0:
+            d //= p
+    return d == 1
+
+def parse_fraction_text(s):
+    s = s.strip()
+    if s.startswith('approx.'):
+        return None
+    try:
+        return Fraction(s.replace(' ', ''))
+    except Exception:
+        return None
+
+def eval_texts(c, texts):
+    """evaluate each text on a fresh context -> list of ('o', str) | ('e', str) | ('x', raw)"""
+    out = []
+    B = 40
+    lines = [sx([Sym('eval')] + texts[i:i + B]) for i in range(0, len(texts), B)]
+    res = c.impl('num', lines, timeout=60)
+    for i, rline in enumerate(res):
+        p = try_parse(rline)
+        chunk = texts[i * B:(i + 1) * B]
+        if isinstance(p, list) and len(p) == len(chunk) and all(isinstance(x, list) and len(x) == 2 for x in p):
+            out += [(x[0].decode(), x[1].decode('utf-8', 'replace')) for x in p]
+        else:
+            # a crash or hang inside the batch: re-run one by one to isolate it
+            single = c.impl('num', [sx([Sym('eval'), t]) for t in chunk], timeout=30)
+            for t, o in zip(chunk, single):
+                q = try_parse(o)
+                if isinstance(q, list) and len(q) == 1 and isinstance(q[0], list) and len(q[0]) == 2:
+                    out.append((q[0][0].decode(), q[0][1].decode('utf-8', 'replace')))
+                else:
+                    out.append(('x', o))
+    return out
+
+def check_expressions(c):
+    r = c.rng
+    quick = c.tier == 'quick'
+    want = 500 if quick else 6000
+    maxdepth = 6 if quick else 8
+    trees = [(t, 'corpus') for t in CORPUS_TREES]
+    tries = 0
+    while len(trees) < want + len(CORPUS_TREES) and tries < want * 30:
+        tries += 1
+        cx = r.random() < 0.35
+        g = gen_tree(r, r.choice([1, 2, 2, 3, 3, 4, 4, 5, maxdepth]), cx)
+        if g is None or not all_sizes_ok(g[0]):
+            continue
+        trees.append((g[0], 'complex' if cx else 'real'))
+    err_trees = list(ERROR_TREES)
+    # errors below random contexts
+    for _ in range(20 if quick else 200):
+        g = gen_tree(r, 2, False)
+        if g is None or not all_sizes_ok(g[0]):
+            continue
+        bad, kind = r.choice(ERROR_TREES)
+        err_trees.append((r.choice([('add', g[0], bad), ('mul', bad, g[0]), ('sub', g[0], bad), ('neg', bad)]), kind))
+    # ---- literals: raw representation from the implementation itself ----
+    lits = set()
+    for t, _ in trees + err_trees:
+        lits_of(t, lits)
+    lits = sorted(lits)
+    dbg = eval_texts(c, ['@debug ' + l for l in lits])
+    reps = {}
+    for l, (k, o) in zip(lits, dbg):
+        rep = parse_dbg_real(o) if k == 'o' else None
+        if rep is None or rat_val(rep) != lit_value(l):
+            c.violation('literal-value', {'kind': 'impl-vs-spec', 'layer': 'L2 literal', 'text': l, 'impl': o, 'spec': str(lit_value(l))})
+            rep = (False, ('s', 0), ('s', 1))
+        reps[l] = rep
+    # ---- run ----
+    all_trees = trees + [(t, 'error:' + k) for t, k in err_trees]
+    texts = []
+    for t, _ in all_trees:
+        e = text_of(t)
+        texts += ['@debug ' + e, 'real(' + e + ') to fraction', 'imag(' + e + ') to fraction', e]
+    outs = eval_texts(c, texts)
+    mlines = [sx([Sym('ex-eval'), 1, wire_tree(t, reps)]) for t, _ in all_trees]
+    slines = [sx([Sym('ex-spec'), 1, wire_tree(t, reps)]) for t, _ in all_trees]
+    klines = [sx([Sym('ex-known'), 1, wire_tree(t, reps)]) for t, _ in all_trees]
+    mo = c.model('num', mlines, timeout=120)
+    # cval is the mathematical value: on a 2^64-sized exponent it does not terminate in practice
+    huge = [fam == 'error:huge' for _, fam in all_trees]
+    so_part = c.model('num', [l for l, h in zip(slines, huge) if not h], cross=False, timeout=120)
+    it = iter(so_part)
+    so = ['("skipped")' if h else next(it) for h in huge]
+    ko = c.model('num', klines, cross=False, timeout=120)
+    sampled = False
+    for idx, (t, fam) in enumerate(all_trees):
+        e = text_of(t)
+        o_dbg, o_re, o_im, o_plain = outs[4 * idx:4 * idx + 4]
+        nops = count_ops(t)
+        c.note_case('x|' + e, nops >= 2, 'expr/' + fam.split(':')[0] + '/ops' + str(min(nops, 12) // 4 * 4))
+        rp = {'kind': 'impl-vs-spec', 'layer': 'L2 expression', 'family': fam, 'expr': e, 'debug': o_dbg[1][:400], 'real': o_re[1][:400],
+              'imag': o_im[1][:400], 'plain': o_plain[1][:400], 'model': mo[idx][:400], 'coq_spec': so[idx][:400]}
+        # ---- the specification (python) and the Coq cval must agree --------
+        try:
+            sv = spec_eval(t); skind = 'value'
+        except Undefined as u:
+            sv = None; skind = u.kind
+        except Outside:
+            sv = None; skind = 'outside'
+        cs = try_parse(so[idx])
+        if skind == 'value':
+            want_cs = [b'v', [sv[0].numerator, sv[0].denominator], [sv[1].numerator, sv[1].denominator]]
+            if cs != want_cs:
+                c.violation('spec-mismatch', dict(rp, kind='check-internal', python_spec=str(sv)), no_input=True)
+        elif skind in ('div0', '0^0') and cs != [b'undef']:
+            c.violation('spec-mismatch', dict(rp, kind='check-internal', python_spec=skind), no_input=True)
+        nm = norm_model(mo[idx])
+        known = ko[idx] == '1'
+        # ---- impl vs spec ---------------------------------------------------
+        crashed = [x for x in (o_dbg, o_re, o_im, o_plain) if x[0] == 'x']
+        if crashed:
+            c.violation('expression-crash', dict(rp, raw=crashed[0][1][:300]))
+            continue
+        if skind == 'value':
+            vre = parse_fraction_text(o_re[1]) if o_re[0] == 'o' else None
+            vim = parse_fraction_text(o_im[1]) if o_im[0] == 'o' else None
+            # the plain (auto) format may truncate a non-terminating real decimal and then says
+            # approx. (that is C03's subject); everywhere else the marker must be absent
+            marker = o_plain[0] == 'o' and o_plain[1].startswith('approx.') and (sv[1] != 0 or terminates(sv[0]))
+            good = vre == sv[0] and vim == sv[1] and not marker and o_plain[0] == 'o' and not o_dbg[1].startswith('approx.')
+            if not good:
+                if known and nm == ('err', 12) and c.known_finding(CLS_POW_UNREDUCED):
+                    continue
+                c.violation('expression-value', rp)
+                continue
+        elif skind in ('div0', '0^0', 'huge'):
+            msg = {'div0': 'division by zero', '0^0': 'zero to the power of zero', 'huge': 'exponent too large'}[skind]
+            if not all(x[0] == 'e' and msg in x[1] for x in (o_dbg, o_re, o_im, o_plain)):
+                c.violation('expression-error', dict(rp, expected_error=msg))
+                continue
+        # ---- impl vs model (representation level, through @debug) ----------
+        if nm[0] == 'ok':
+            try:
+                flag = nm[1][0] == 1
+                mre = unwire_rat(nm[1][1]); mim = unwire_rat(nm[1][2])
+                mtxt = dbg_value(flag, mre, mim)
+            except Exception:
+                mtxt = None
+            got = o_dbg[1].split(' (unitless)')[0] if o_dbg[0] == 'o' else None
+            if mtxt is None or got != mtxt:
+                same_value = (mtxt is not None and skind == 'value' and flag and rat_val(mre) == sv[0] and rat_val(mim) == sv[1])
+                if same_value and o_dbg[0] == 'o':
+                    c.repr_drift += 1
+                else:
+                    c.violation('expression-model-drift', dict(rp, kind='impl-vs-model', model_debug=mtxt), no_input=True)
+        elif nm[0] == 'err':
+            msg = {1: 'division by zero', 2: 'zero to the power of zero', 3: 'exponent too large'}.get(nm[1])
+            if msg is None or not (o_dbg[0] == 'e' and msg in o_dbg[1]):
+                if not (known and nm[1] == 12):
+                    c.violation('expression-model-drift', dict(rp, kind='impl-vs-model'), no_input=True)
+        else:
+            c.violation('expression-model-panic', dict(rp, kind='impl-vs-model'), no_input=True)
+        if not sampled and nops >= 4 and fam == 'complex':
+            c.sample({'expr': e[:300], 'debug': o_dbg[1][:200], 'real': o_re[1][:120], 'imag': o_im[1][:120]}); sampled = True
+
+
 def check(c):
     c.rule = ('L1: BigUint/BigRat operations on raw limb vectors (lengths 1-70, special limbs 0/1/2^63/2^64-1, carry and borrow chains, '
               'Small/Large mixes, leading zero limbs, equal / off-by-one operands, special divisors); non-trivial = an operand or the result needs >= 2 limbs; '
@@ -396,6 +1020,8 @@ def check(c):
     if c.tier == 'thorough' and ok:
         c.thorough_proof(['C01'])
     check_biguint(c)
+    check_bigrat(c)
+    check_expressions(c)
 
 
 def replay(c, obj):
